@@ -222,6 +222,43 @@ func buildC03Case(fn *irFunc) *c02Case {
 			}
 			c.queries = append(c.queries, c02Query{"args", pre() + fmt.Sprintf("(assert (not (and %s)))\n(check-sat)\n(get-model)\n", strings.Join(conds, " "))})
 		}
+	case "clmake":
+		// clmake__<chan|map>__<T>__n: make(chan int64, n) / make(map[int64]int64, n), compiled from Go source by cl
+		t, ok := goIntTypeOf(parts[2])
+		c.fnName = map[string]string{"chan": "ssa.Builder.MakeChan", "map": "ssa.Builder.MakeMap"}[parts[1]]
+		c.oblig = fmt.Sprintf("%s/args[size=%s]", c.fnName, parts[2])
+		if !ok || c.fnName == "" {
+			c.skip = "unknown case"
+			return c
+		}
+		if c.skip != "" {
+			return c
+		}
+		rtName := map[string]string{"chan": "NewChan", "map": "MakeMap"}[parts[1]]
+		i64 := goIntType{"int", 64, true}
+		want := goConvert(t, i64, "a0")
+		var conds []string
+		found := false
+		for _, call := range ev.calls {
+			if call.name != rtName || len(call.args) != 2 {
+				continue
+			}
+			found = true
+			if call.args[1].w != 64 {
+				// the operand reaches the run-time function in its own width: the call does not even type-check
+				conds = append(conds, "false")
+				continue
+			}
+			conds = append(conds, fmt.Sprintf("(= %s %s)", call.args[1].t, want), "(not "+orS(call.args[1].poison)+")")
+			if parts[1] == "chan" {
+				conds = append(conds, fmt.Sprintf("(= %s (_ bv8 64))", call.args[0].t))
+			}
+		}
+		if !found {
+			c.skip = "no call of runtime." + rtName + " in the emitted code"
+			return c
+		}
+		c.queries = append(c.queries, c02Query{"args", pre() + fmt.Sprintf("(assert (not (and %s (not %s))))\n(check-sat)\n(get-model)\n", strings.Join(conds, " "), ubAny)})
 	case "makeslice":
 		// makeslice__slice__<T>__lc: make([]int64, len, cap) with len and cap of type T
 		t, ok := goIntTypeOf(parts[2])
@@ -261,7 +298,7 @@ func buildC03Case(fn *irFunc) *c02Case {
 }
 
 func c03CompilerGoals(ck *Checker, rep *Report, opts *Options) []*Goal {
-	if opts.OnlyFn != "" && !strings.Contains("ssa.Builder.IndexAddr Index Slice ssa.Builder.TypeAssert ssa.Builder.MakeSlice cl.compileInstrOrValue(*ssa.Slice)", opts.OnlyFn) {
+	if opts.OnlyFn != "" && !strings.Contains("ssa.Builder.IndexAddr Index Slice ssa.Builder.TypeAssert ssa.Builder.MakeSlice ssa.Builder.MakeChan ssa.Builder.MakeMap cl.compileInstrOrValue(*ssa.Slice)", opts.OnlyFn) {
 		return nil
 	}
 	text, err := RunC02Harness(opts, "c03_emit_test.go", "c03")
